@@ -83,6 +83,10 @@ def run(F, ck, tier):
         skipped = [] if not ok else [t for w, t in info]
         ck.ob('R01.2', 'transcript:plonk:V~P', ok and not skipped, '%d verifier / %d prover transcript events align' % (len(trs['V'][0]), len(trs['P'][0])) if ok and not skipped else
               'prover and verifier transcripts diverge: honest proofs would be rejected', None)
+        if ok:
+            # the same number of challenges is drawn by aligned plural squeezes (count expressions as polynomials)
+            sub = _Sub01(ck)
+            c04.squeeze_counts(F, sub, 'plonk', 'V', 'P', trs['V'][0], trs['P'][0], info)
     else:
         ck.ob('R01.2', 'transcript:plonk:V~P', False, 'ANCHOR-MISSING transcript functions')
     E.check('R01.2', dict(id='quotient.zh_domain', fn='plonk::prover::compute_quotient_polys', crate='plonky2', kind='call', callee='ZeroPolyOnCoset::new',
@@ -124,3 +128,16 @@ def run(F, ck, tier):
     ck.decided += ['generators read only declared dependencies', 'prover/verifier transcript agreement', 'prover quotient domain consistency', 'base/extension folding shortcuts agree']
     ck.undecided += ['that proving succeeds and outputs are right for all programs, inputs and configurations (behavioural)', 'gadget arithmetic correctness']
     return 'Decides a few structural necessary conditions of C01 (generator dependency discipline, transcript agreement, quotient-domain consistency, sibling shortcut agreement). The behavioural statement is not decided.'
+
+
+class _Sub01:
+    """records R04.3-style count obligations under R01.2"""
+    def __init__(self, ck):
+        self.ck = ck
+
+    def ob(self, rule, key, ok, detail='', loc=None):
+        return self.ck.ob('R01.2', key, ok, detail, loc)
+
+    @property
+    def notes(self):
+        return self.ck.notes
